@@ -1,14 +1,14 @@
 (* Frame infrastructure shared by the C18 / C20 proofs: what every helper of Node.v leaves alone. *)
 From Coq Require Import ZArith NArith List Bool Lia ZifyBool ZifyN.
 From RecordUpdate Require Import RecordSet.
-From PSO Require Import Raft.Types Raft.Node Raft.Net Raft.Obs.
+From PSO Require Import Raft.Types Raft.Node Raft.Net.
 Import ListNotations.
 Import RecordSetNotations.
 Open Scope N_scope.
 
 (* the election-related part of a node *)
 Definition core (n : node) :=
-  (self n, role n, term n, voted n, votes n, leader n, need_load n).
+  (self n, role n, term n, voted n, votes n, leader n).
 
 (* what the majority computations read *)
 Definition mem_part (n : node) := (others n, last_resp n, match_idx n).
@@ -34,16 +34,25 @@ Definition fr (m : bool) (s s' : S) : Prop :=
     (m = true -> Forall nomem ex -> mem_part (nd s') = mem_part (nd s)) /\
     (tnow s <= tnow s')%Z /\
     (forall x v, aget x (last_resp (nd s')) = Some v ->
-                 aget x (last_resp (nd s)) = Some v \/ (In (TAdd x) ex /\ (tnow s <= v <= tnow s')%Z)).
+                 aget x (last_resp (nd s)) = Some v \/ (In (TAdd x) ex /\ (tnow s <= v <= tnow s')%Z)) /\
+    (need_load (nd s) = false -> need_load (nd s') = false).
+
+Lemma fr_same : forall m s s',
+  outs s' = outs s -> nd s' = nd s -> (tnow s <= tnow s')%Z -> fr m s s'.
+Proof.
+  intros m s s' Ho Hn Ht. exists []. rewrite app_nil_r, Hn.
+  split; [exact Ho|]. split; [constructor|]. split; [reflexivity|]. split; [reflexivity|].
+  split; [exact Ht|]. split; [intros x v H; left; exact H | auto].
+Qed.
 
 Lemma fr_refl : forall m s, fr m s s.
 Proof.
-  intros; exists []; rewrite app_nil_r; repeat split; auto; try lia.
+  intros; apply fr_same; auto; lia.
 Qed.
 
 Lemma fr_trans : forall m s1 s2 s3, fr m s1 s2 -> fr m s2 s3 -> fr m s1 s3.
 Proof.
-  intros m s1 s2 s3 (e1 & O1 & B1 & C1 & M1 & T1 & L1) (e2 & O2 & B2 & C2 & M2 & T2 & L2).
+  intros m s1 s2 s3 (e1 & O1 & B1 & C1 & M1 & T1 & L1 & N1) (e2 & O2 & B2 & C2 & M2 & T2 & L2 & N2).
   exists (e1 ++ e2). repeat split.
   - rewrite O2, O1, app_assoc; reflexivity.
   - apply Forall_app; auto.
@@ -53,11 +62,14 @@ Proof.
   - intros x v H. destruct (L2 x v H) as [H2 | [H2 H3]].
     + destruct (L1 x v H2) as [H1 | [H1 H4]]; [left; auto | right; split; [apply in_or_app; auto | lia]].
     + right; split; [apply in_or_app; auto | lia].
+  - auto.
 Qed.
 
 Lemma fr_weaken : forall s s', fr true s s' -> fr false s s'.
 Proof.
-  intros s s' (ex & O & B & C & M & T & L). exists ex; repeat split; auto; try discriminate; apply L; auto.
+  intros s s' (ex & O & B & C & M & T & L & Nl). exists ex.
+  split; [exact O|]. split; [exact B|]. split; [exact C|]. split; [discriminate|]. split; [exact T|].
+  split; [exact L | exact Nl].
 Qed.
 
 Lemma fr_any : forall m s s', fr true s s' -> fr m s s'.
@@ -69,21 +81,23 @@ Proof. intros m s s' (ex & O & B & C & _); exact C. Qed.
 
 Lemma core_fields : forall a b, core a = core b ->
   self a = self b /\ role a = role b /\ term a = term b /\ voted a = voted b /\ votes a = votes b /\
-  leader a = leader b /\ need_load a = need_load b.
+  leader a = leader b.
 Proof. unfold core; intros a b H; inversion H; repeat split; auto. Qed.
 
 Lemma fr_outs : forall m s s', fr m s s' -> exists ex, outs s' = outs s ++ ex /\ Forall benign ex.
 Proof. intros m s s' (ex & O & B & _); eauto. Qed.
 
 Lemma fr_tnow : forall m s s', fr m s s' -> (tnow s <= tnow s')%Z.
-Proof. intros m s s' (ex & O & B & C & M & T & L); exact T. Qed.
+Proof. intros m s s' (ex & O & B & C & M & T & L & Nl); exact T. Qed.
 
 (* ---- primitives ---- *)
 Lemma fr_upd : forall m (f : node -> node) s,
-  (forall n, core (f n) = core n) -> (forall n, mem_part (f n) = mem_part n) -> fr m s (upd f s).
+  (forall n, core (f n) = core n) -> (forall n, mem_part (f n) = mem_part n) ->
+  (forall n, need_load (f n) = need_load n) -> fr m s (upd f s).
 Proof.
-  intros m f s Hc Hm. exists []. unfold upd; cbn. rewrite app_nil_r.
-  repeat split; auto; try lia.
+  intros m f s Hc Hm Hn. exists []. unfold upd; cbn. rewrite app_nil_r.
+  split; [reflexivity|]. split; [constructor|]. split; [apply Hc|]. split; [intros; apply Hm|].
+  split; [lia|]. split; [|rewrite Hn; auto].
   intros x v H. left. specialize (Hm (nd s)). unfold mem_part in Hm.
   assert (last_resp (f (nd s)) = last_resp (nd s)) as H2 by congruence.
   rewrite <- H2; exact H.
@@ -91,11 +105,13 @@ Qed.
 
 Lemma fr_emit : forall m o s, benign o -> nomem o -> fr m s (emit o s).
 Proof.
-  intros m o s Hb Hn. exists [o]. unfold emit; cbn. repeat split; auto; try lia.
+  intros m o s Hb Hn. exists [o]. unfold emit; cbn.
+  split; [reflexivity|]. split; [repeat constructor; exact Hb|]. split; [reflexivity|]. split; [reflexivity|].
+  split; [lia|]. split; [intros x v H; left; exact H | auto].
 Qed.
 
 Lemma fr_raise : forall m c s, fr m s (raise c s).
-Proof. intros; exists []; unfold raise; cbn; rewrite app_nil_r; repeat split; auto; lia. Qed.
+Proof. intros; apply fr_same; unfold raise; cbn; auto; lia. Qed.
 
 Lemma fr_send : forall m d msg0 s, benign (Send d msg0) -> fr m s (send d msg0 s).
 Proof.
@@ -170,6 +186,7 @@ Proof.
     split; [destruct (role (nd s) =? LEADER); reflexivity|].
     split; [intros _ HF; inversion HF; subst; contradiction|].
     split; [lia|].
+    split; [|destruct (role (nd s) =? LEADER); cbn; auto].
     intros y v H. destruct (role (nd s) =? LEADER); cbn in H; [|left; exact H].
     destruct (N.eq_dec y x) as [->|Hne].
     + right. rewrite aget_aset_same in H. inversion H. split; [left; reflexivity | lia].
@@ -180,38 +197,39 @@ Proof.
     split; [reflexivity|]. split; [repeat constructor|].
     split; [reflexivity|].
     split; [intros _ HF; inversion HF; subst; contradiction|].
-    split; [lia|]. intros y v H; left; exact H.
+    split; [lia|]. split; [intros y v H; left; exact H | cbn; auto].
 Qed.
 
 (* ---- chaining tactic ---- *)
 Lemma fr_upd_false : forall (f : node -> node) s,
-  (forall n, core (f n) = core n) -> (forall n, last_resp (f n) = last_resp n) -> fr false s (upd f s).
+  (forall n, core (f n) = core n) -> (forall n, last_resp (f n) = last_resp n) ->
+  (forall n, need_load (f n) = need_load n) -> fr false s (upd f s).
 Proof.
-  intros f s Hc Hm. exists []. unfold upd; cbn. rewrite app_nil_r.
+  intros f s Hc Hm Hn. exists []. unfold upd; cbn. rewrite app_nil_r.
   split; [reflexivity|]. split; [constructor|]. split; [apply Hc|]. split; [discriminate|].
-  split; [lia|]. intros x v H; left. rewrite <- Hm; exact H.
+  split; [lia|]. split; [|rewrite Hn; auto]. intros x v H; left. rewrite <- Hm; exact H.
 Qed.
 
 Lemma fr_emit_false : forall o s, benign o -> fr false s (emit o s).
 Proof.
   intros o s Hb. exists [o]. unfold emit; cbn.
   split; [reflexivity|]. split; [repeat constructor; exact Hb|]. split; [reflexivity|].
-  split; [discriminate|]. split; [lia|]. intros x v H; left; exact H.
+  split; [discriminate|]. split; [lia|]. split; [intros x v H; left; exact H | auto].
 Qed.
 
 Create HintDb frdb.
-#[export] Hint Resolve fr_refl fr_raise fr_fire fr_call_err fr_on_leader_changed fr_send_next_idx
+#[export] Hint Resolve fr_raise fr_fire fr_call_err fr_on_leader_changed fr_send_next_idx
   fr_do_change_cluster : frdb.
 
-Ltac fr1 :=
-  first [ apply fr_refl
-        | solve [auto with frdb]
+Ltac fr0 :=
+  first [ solve [auto with frdb]
         | apply fr_upd; intros; reflexivity
         | apply fr_upd_false; intros; reflexivity
         | apply fr_send; exact I
         | apply fr_emit; exact I
         | apply fr_emit_false; exact I ].
-Ltac frchain := repeat (first [ fr1 | eapply fr_trans; [| fr1] ]).
+Ltac fr1 := first [ apply fr_refl | fr0 ].
+Ltac frchain := repeat (first [ fr1 | eapply fr_trans; [| fr0] ]).
 
 Lemma fr_apply_membership : forall m rev es s, fr m s (apply_membership rev es s).
 Proof.
@@ -224,7 +242,7 @@ Lemma fr_update_cluster : forall new s, fr false s (update_cluster new s).
 Proof.
   intros; unfold update_cluster; cbv zeta.
   eapply fr_trans; [| apply fr_fold; intros s0 x; cbv beta; frchain].
-  eapply fr_trans; [| fr1].
+  eapply fr_trans; [| fr0].
   apply fr_fold. intros s0 x. frchain.
 Qed.
 #[export] Hint Resolve fr_update_cluster : frdb.
@@ -254,9 +272,9 @@ Proof.
   destruct (self_ver (nd s) <? s_ver sn); [fr1|].
   match goal with |- fr _ _ (if dyn _ then update_cluster ?l ?X else ?Y) =>
     assert (fr false s Y) as HY end.
-  { eapply fr_trans; [|fr1].
+  { eapply fr_trans; [|fr0].
     match goal with |- fr _ _ (if ?c then _ else _) => destruct c end.
-    - eapply fr_trans; [|fr1].
+    - eapply fr_trans; [|fr0].
       destruct clear; [frchain|].
       destruct (get_entries _ _ _ _) as [|a [|b [|? ?]]]; frchain.
       destruct (entry_eqb a (s_e0 sn) && entry_eqb b (s_e1 sn)); frchain.
@@ -267,3 +285,188 @@ Proof.
   eapply fr_trans; [exact HY | apply fr_update_cluster].
 Qed.
 #[export] Hint Resolve fr_load_dump : frdb.
+
+(* ---- __sendAppendEntries ---- *)
+Definition period_ok (e : env) : Prop := (0 <= period (cf e))%Z.
+
+Lemma fr_delta_read : forall m e s, period_ok e -> fr m s (delta_read e s).
+Proof.
+  intros m e s Hp. unfold delta_read, period_ok in *. cbv zeta.
+  destruct (_ && _); exists []; cbn; rewrite app_nil_r;
+    (split; [reflexivity|]; split; [constructor|]; split; [reflexivity|]; split; [reflexivity|];
+     split; [lia|]; split; [intros x v H; left; exact H | auto]).
+Qed.
+
+Lemma fr_send_pieces : forall m fuel x en prev b pos s, fr m s (send_pieces fuel x en prev b pos s).
+Proof.
+  intros m fuel; induction fuel as [|f IH]; intros; cbn; [fr1|].
+  destruct (psize en <=? pos); [fr1|].
+  eapply fr_trans; [|apply IH]. frchain.
+Qed.
+#[export] Hint Resolve fr_send_pieces : frdb.
+
+#[local] Arguments send_pieces : simpl never.
+Lemma fr_ae_body : forall m e x next s, fr m s (fst (ae_body e x next s)).
+Proof.
+  intros; unfold ae_body.
+  destruct (first_idx (log (nd s)) <? next).
+  - destruct (next <=? last_idx (log (nd s))).
+    + destruct (get_entries _ _ _ _) as [|e1 [|e2 r]]; cbn; frchain.
+      destruct (batch (cf e) <=? csz (ecmd e1)); cbn; frchain.
+    + cbn; frchain.
+  - destruct (get_transmission e x s) as [s1 td] eqn:E.
+    assert (fr m s s1) as H1 by (change s1 with (fst (s1, td)); rewrite <- E; fr1).
+    destruct td as [|b off len fi la]; cbn; [eapply fr_trans; [exact H1|frchain]|].
+    destruct la; cbn; [|eapply fr_trans; [exact H1|frchain]].
+    destruct (log (nd (send x _ s1))) as [|? [|e1 ?]]; cbn; (eapply fr_trans; [exact H1|frchain]).
+Qed.
+
+Lemma fr_ae_loop : forall m fuel e start x single ser_ s, period_ok e -> fr m s (ae_loop fuel e start x single ser_ s).
+Proof.
+  intros m fuel; induction fuel as [|f IH]; intros e start x single ser_ s Hp; cbn [ae_loop]; [fr1|].
+  destruct (aget x (next_idx (nd s))) as [next|]; [|fr1].
+  destruct ((next <=? last_idx (log (nd s))) || single || ser_); [|fr1].
+  destruct (ae_body e x next s) as [s1 ser'] eqn:E.
+  assert (fr m s s1) as H1 by (change s1 with (fst (s1, ser')); rewrite <- E; apply fr_ae_body).
+  destruct (ok s1); [|exact H1].
+  assert (fr m s (delta_read e s1)) as H2 by (eapply fr_trans; [exact H1 | apply fr_delta_read; exact Hp]).
+  destruct (period (cf e) <? tnow (delta_read e s1) - start)%Z; [exact H2|].
+  eapply fr_trans; [exact H2 | apply IH; exact Hp].
+Qed.
+
+Lemma fr_send_ae : forall m e s, period_ok e -> fr m s (send_ae e s).
+Proof.
+  intros m e s Hp; unfold send_ae; cbv zeta.
+  eapply fr_trans; [| apply fr_fold; intros s0 x].
+  - eapply fr_trans with (s <| used := 0 |> <| jmp := false |>).
+    + apply fr_same; cbn; auto; lia.
+    + fr0.
+  - destruct (ok s0); [|fr1].
+    destruct (negb (smem x (connected (nd s0)))); [fr1|].
+    apply fr_ae_loop; exact Hp.
+Qed.
+
+(* ---- apply ---- *)
+Lemma fr_do_apply : forall m c s, fr m s (fst (do_apply c s)).
+Proof.
+  intros; unfold do_apply.
+  destruct (ck c =? 3).
+  - destruct (self_ver (nd s) <? ca c); cbn; frchain.
+  - destruct (membership_of c) as [[a x]|].
+    + destruct (applied (nd s) <? replay_idx (nd s)); cbn; frchain.
+    + destruct (ck c =? 0); cbn; [|fr1]. destruct (cb c =? 1); cbn; frchain.
+Qed.
+
+Lemma fr_apply_one : forall m en s, fr m s (fst (apply_one en s)).
+Proof.
+  intros; unfold apply_one; cbv zeta.
+  match goal with |- context [do_apply ?c ?X] =>
+    assert (fr m s X) as H0 by fr0; destruct (do_apply c X) as [s1 ar] eqn:E;
+    assert (fr m X s1) as H1 by (change s1 with (fst (s1, ar)); rewrite <- E; apply fr_do_apply) end.
+  assert (fr m s s1) as H2 by exact (fr_trans _ _ _ _ H0 H1).
+  destruct ar; cbn; try exact H2;
+    (eapply fr_trans; [exact H2|]; eapply fr_trans; [|fr0]; apply fr_fold; intros s0 tc;
+     destruct (fst tc =? eterm en); fr1).
+Qed.
+
+Lemma fr_apply_list : forall m es s, fr m s (apply_list es s).
+Proof.
+  intros m es; induction es as [|en r IH]; intros; cbn; [fr1|].
+  destruct (apply_one en s) as [s1 go] eqn:E.
+  assert (fr m s s1) as H1 by (change s1 with (fst (s1, go)); rewrite <- E; apply fr_apply_one).
+  destruct go; [|exact H1]. eapply fr_trans; [exact H1 | apply IH].
+Qed.
+
+Lemma fr_apply_entries : forall m e s, fr m s (fst (apply_entries e s)).
+Proof.
+  intros; unfold apply_entries; cbv zeta.
+  destruct (applied (nd s) <? commit (nd s)); cbn; [apply fr_apply_list | fr1].
+Qed.
+#[export] Hint Resolve fr_ae_body fr_do_apply fr_apply_one fr_apply_list fr_apply_entries : frdb.
+
+(* ---- commands ---- *)
+Lemma fr_submit : forall m e c cbk s, fr m s (submit e c cbk s).
+Proof. intros; unfold submit. destruct (qsize (cf e) <? _); frchain. Qed.
+
+Lemma fr_change_cluster : forall m add x s, fr m s (fst (change_cluster add x s)).
+Proof.
+  intros; unfold change_cluster; cbv zeta.
+  destruct (negb _); cbn; [fr1|].
+  match goal with |- context [change_idx (nd ?X)] => assert (fr m s X) as H0 end.
+  { destruct (change_idx (nd s)) as [ci|]; [|fr1]. destruct (ci <=? applied (nd s)); frchain. }
+  match goal with |- context [change_idx (nd ?X)] => destruct (change_idx (nd X)) end; cbn; [exact H0|].
+  eapply fr_trans; [exact H0 | fr0].
+Qed.
+#[export] Hint Resolve fr_submit fr_change_cluster : frdb.
+
+Lemma fr_check_one : forall m e c cbk s, period_ok e -> fr m s (check_one e c cbk s).
+Proof.
+  intros m e c cbk s Hp; unfold check_one; cbv zeta.
+  destruct (role (nd s) =? LEADER).
+  - match goal with |- context [match ?R with None => (s, true) | Some p => _ end] =>
+      destruct R as [[a x]|] eqn:ER end.
+    + destruct (change_cluster a x s) as [s1 acc] eqn:E.
+      assert (fr m s s1) as H1 by (change s1 with (fst (s1, acc)); rewrite <- E; fr0).
+      destruct acc.
+      * eapply fr_trans; [exact H1|].
+        destruct (use_batch (cf e)); [|eapply fr_trans; [|apply fr_send_ae; exact Hp]];
+          destruct cbk; frchain.
+      * eapply fr_trans; [exact H1|]. destruct cbk; frchain.
+    + destruct (use_batch (cf e)); [|eapply fr_trans; [|apply fr_send_ae; exact Hp]];
+        destruct cbk; frchain.
+  - destruct (leader (nd s)); [|fr1]. destruct cbk; frchain.
+Qed.
+
+Lemma fr_check_loop : forall m fuel e start s, period_ok e -> fr m s (check_loop fuel e start s).
+Proof.
+  intros m fuel; induction fuel as [|f IH]; intros e start s Hp; cbn [check_loop]; [fr1|].
+  destruct (tnow s - start <? period (cf e))%Z; [|fr1].
+  assert (fr m s match queue (nd s) with
+                 | [] => s
+                 | (c, cbk) :: rest =>
+                   if ok (check_one e c cbk (upd (fun n => n <| queue := rest |>) s))
+                   then check_loop f e start (check_one e c cbk (upd (fun n => n <| queue := rest |>) s))
+                   else check_one e c cbk (upd (fun n => n <| queue := rest |>) s)
+                 end) as H.
+  { destruct (queue (nd s)) as [|[c cbk] rest]; [fr1|].
+    assert (fr m s (check_one e c cbk (upd (fun n => n <| queue := rest |>) s))) as H1.
+    { eapply fr_trans; [|apply fr_check_one; exact Hp]. fr0. }
+    destruct (ok _); [|exact H1]. eapply fr_trans; [exact H1 | apply IH; exact Hp]. }
+  destruct (leader (nd s)); [exact H|]. destruct (wait_leader (cf e)); [fr1 | exact H].
+Qed.
+
+Lemma fr_check_commands : forall m e s, period_ok e -> fr m s (check_commands e s).
+Proof. intros; unfold check_commands; apply fr_check_loop; assumption. Qed.
+
+Lemma fr_try_compact : forall m e s, fr m s (try_compact e s).
+Proof.
+  intros; unfold try_compact; cbv zeta.
+  match goal with |- context [if pid (sr (nd s)) =? 1 then upd ?f ?X else ?X] =>
+    assert (fr m s (if pid (sr (nd s)) =? 1 then upd f X else X)) as H0 end.
+  { destruct (pid (sr (nd s)) =? 1); destruct (pid (sr (nd s)) =? 0); frchain. }
+  destruct (negb (pid (sr (nd s)) =? 0)); [exact H0|].
+  match goal with |- context [if ?c then _ else _] => destruct c end; [exact H0|].
+  eapply fr_trans; [exact H0|].
+  match goal with |- context [get_entries ?a ?b ?c ?d] => destruct (get_entries a b c d) as [|e0 [|e1 r]] end;
+    frchain.
+  destruct (opt_eqb _ _); frchain.
+Qed.
+
+Lemma fr_tick_timer : forall m e s, fr m s (tick_timer e s).
+Proof. intros; unfold tick_timer; cbv zeta. destruct (_ <? _)%Z; frchain. Qed.
+
+Lemma fr_tick_ready : forall m s, fr m s (tick_ready s).
+Proof. intros; unfold tick_ready; cbv zeta. destruct (_ && _); frchain. Qed.
+
+Lemma fr_ae_commit : forall m c v s, fr m s (ae_commit c v s).
+Proof.
+  intros; unfold ae_commit. eapply fr_trans; [|fr0].
+  destruct v; [|fr1]. destruct (commit (nd s) <? c); frchain.
+Qed.
+#[export] Hint Resolve fr_try_compact fr_tick_timer fr_tick_ready fr_ae_commit : frdb.
+
+Lemma fr_tick_send : forall m e need s, period_ok e -> fr m s (tick_send e need s).
+Proof.
+  intros; unfold tick_send. destruct (role (nd s) =? LEADER); [|fr1].
+  destruct (_ || need); [apply fr_send_ae; assumption | fr1].
+Qed.
